@@ -38,6 +38,12 @@ class DispatchingRequestHandler(BaseHTTPRequestHandler):
     def log_request(self, code='-', size='-'):
         pass  # suppress printing of every request to stderr
 
+    def send_response(self, code, message=None):
+        """Send the status line; the reason phrase is a single latin-1 line, whatever text (exception messages) it is made from."""
+        if message is not None:
+            message = ' '.join(message.splitlines())[:200].encode('latin-1', 'replace').decode('latin-1')
+        super().send_response(code, message)
+
     def get_first_path_element(self):
         parsed_path = urlparse(self.path)
         path_elements = parsed_path.path.split('/')
